@@ -213,6 +213,44 @@ pub fn run(tier: &str, seed: u64, replay: Option<String>) -> i32 {
     }
     djobs.extend(side_picked);
     djobs.extend(picked);
+    // synthetic projects: one option value swapped for another value the parser knows about
+    // (dictionary from the parser sources), alone and with every XML NO flag switched to SI
+    let dict = crate::optvar::Dictionary::build();
+    let mut opt_jobs: Vec<DJob> = vec![];
+    let mut opt_space = 0usize;
+    for f in files.iter().filter(|f| f.kind == FileKind::Ctehexml) {
+        let mut seen = HashSet::new();
+        for sl in crate::optvar::slots(&f.text) {
+            // one slot per (tag, value): the parser cannot tell two occurrences apart
+            if !seen.insert((sl.tag.clone(), sl.value.clone())) {
+                continue;
+            }
+            for alt in dict.alternatives(&sl.value) {
+                for flags_on in [false, true] {
+                    opt_space += 1;
+                    opt_jobs.push(DJob {
+                        file: f.rel.clone(),
+                        edit: Edit::ValueSwap { line: sl.line, start: sl.start, end: sl.end, text: alt.clone(), flags_on },
+                        cell: format!("optvar|{}|{}->{}|{}", sl.tag, sl.value, alt, flags_on),
+                        level: 2,
+                        e2e: false,
+                        closure: false,
+                        cost: f.text.len(),
+                    });
+                }
+            }
+        }
+    }
+    let opt_budget = if thorough { 40_000 } else { 9_000 };
+    // stratified: one per (tag, value -> alternative, flags) cell first, cheapest files first
+    let mut opt_picked = diskrun::stratified(opt_jobs, 1, &mut rng);
+    if opt_picked.len() > opt_budget {
+        rng.shuffle(&mut opt_picked);
+        opt_picked.truncate(opt_budget);
+    }
+    eprintln!("[C01] option-variation layer: {} synthetic projects of {} in the space", opt_picked.len(), opt_space);
+    let n_opt = opt_picked.len();
+    djobs.extend(opt_picked);
     eprintln!("[C01] in-process layer: {} library runs under fd-1 capture (space {})", djobs.len(), lib_space);
     let lib = diskrun::run(djobs, super::c19::L2_TIMEOUT_MS, &scratch.dir);
 
@@ -332,6 +370,8 @@ pub fn run(tier: &str, seed: u64, replay: Option<String>) -> i32 {
     extra.insert("process_case_classes".into(), json!(case_classes));
     extra.insert("stdout_byte_identical_to_library_as_json".into(), json!(byte_identical));
     extra.insert("in_process_runs".into(), json!(lib.jobs.len()));
+    extra.insert("option_variation_projects".into(), json!(n_opt));
+    extra.insert("option_variation_space".into(), json!(opt_space));
     extra.insert("in_process_runs_returning_ok".into(), json!(lib_ok));
     extra.insert("fault_kinds_fired".into(), json!(fired));
     extra.insert("known_findings_hit".into(), json!(verdict.known_hit));
